@@ -65,6 +65,18 @@ def is_list_like(variable_type: type) -> bool:
     return issubclass(variable_type, __LIST_LIKE)
 
 
+def builtin_base(variable_type: type) -> type:
+    """
+    Get the builtin container type a container class is derived from.
+
+    A derived class is read through this type (dict.keys(value), list.__iter__(value)): looking at a value must not
+    run the methods the application has overridden.
+    """
+    if issubclass(variable_type, dict):
+        return dict
+    return next(base for base in __LIST_LIKE if issubclass(variable_type, base))
+
+
 ITER_LIKE_TYPES = [
     'list_iterator',
     'listiterator',
@@ -225,11 +237,7 @@ def variable_to_string(variable_type, var_value):
     elif is_dict_like(variable_type) or is_list_like(variable_type):
         # if we are a collection then we do not want to use built in string as this can be very
         # large, and quite pointless, instead we just get the size of the collection
-        try:
-            return 'Size: %s' % len(var_value)
-        except BaseException:
-            # a derived class can define its own __len__
-            return safe_str(var_value)
+        return 'Size: %s' % builtin_base(variable_type).__len__(var_value)
     else:
         # everything else just gets a string value
         return safe_str(var_value)
@@ -357,7 +365,7 @@ def find_children_for_parent(var_collector: Collector, parent_node: ParentNode, 
     if is_dict_like(variable_type):
         return process_dict_breadth_first(parent_node, variable_type.__name__, value)
     elif is_list_like(variable_type):
-        return process_list_breadth_first(var_collector, parent_node, value)
+        return process_list_breadth_first(var_collector, parent_node, builtin_base(variable_type).__iter__(value))
     elif isinstance(value, Exception):
         return process_list_breadth_first(var_collector, parent_node, value.args)
     elif isinstance(getattr(value, '__dict__', None), dict):
@@ -384,8 +392,10 @@ def process_dict_breadth_first(parent_node, type_name, value, func=lambda x, y: 
     """
     # we wrap the keys() in a call to list to prevent concurrent changes
     # keys can be any hashable value, the variable names are always text
-    return [Node(value=NodeValue(func(type_name, safe_str(key)), value[key], safe_str(key)), parent=parent_node)
-            for key in list(value.keys()) if key in value]
+    # (read through dict itself: a class derived from dict can have its own keys / __contains__ / __getitem__)
+    return [Node(value=NodeValue(func(type_name, safe_str(key)), dict.__getitem__(value, key), safe_str(key)),
+                 parent=parent_node)
+            for key in list(dict.keys(value)) if dict.__contains__(value, key)]
 
 
 def process_list_breadth_first(var_collector: Collector, parent_node: ParentNode, value) -> List[Node]:
